@@ -100,12 +100,17 @@ def opsPayload : List Op → Bytes
 
 namespace OutBuf
 
+/-- Did a Go `(n, err)` result carry an error? -/
+def failed : Res Nat → Bool
+  | .ok _ => false
+  | _ => true
+
 /-- One operation; `true` = it returned the too-large error. -/
 def apply (b : OutBuf) : Op → OutBuf × Bool
   | .reset => (b.reset, false)
-  | .write p => let r := b.write p; (r.1, r.2 matches .err _)
-  | .writeByte c => let r := b.writeByte c; (r.1, r.2 matches .err _)
-  | .writeString s => let r := b.writeString s; (r.1, r.2 matches .err _)
+  | .write p => ((b.write p).1, failed (b.write p).2)
+  | .writeByte c => ((b.writeByte c).1, failed (b.writeByte c).2)
+  | .writeString s => ((b.writeString s).1, failed (b.writeString s).2)
 
 /-- Every operation is executed, errors are collected (a caller that ignores errors,
 e.g. `sendError`). -/
@@ -177,6 +182,60 @@ def request (t : Transport) (ops : List Op) : Sent :=
   | .err _ => .rejected .requestTooLarge
   | .panic _ => .rejected .other
 
+/-! ### Sizes only
+
+Whether a write is rejected depends on sizes alone. `LBuf` is the buffer reduced to
+`{limit, len}` (proved to be the exact projection of `OutBuf` in `FV.C12`); the
+server side and whole calls are modelled on it. -/
+
+structure LBuf where
+  limit : Nat
+  len : Nat
+  deriving Repr, DecidableEq
+
+namespace LBuf
+
+def new (limit : Nat) : LBuf := ⟨limit, 4⟩
+def reset (b : LBuf) : LBuf := { b with len := 4 }
+def hasWriteData (b : LBuf) : Bool := decide (4 < b.len)
+
+/-- One operation; `true` = it returned the too-large error (and the buffer reset itself). -/
+def apply (b : LBuf) (o : Op) : LBuf × Bool :=
+  if o.isWrite then
+    if 0 < b.limit ∧ b.limit < o.size + b.len then (b.reset, true)
+    else ({ b with len := b.len + o.size }, false)
+  else (b.reset, false)
+
+def runAll (b : LBuf) : List Op → LBuf × List Bool
+  | [] => (b, [])
+  | o :: t =>
+    let r := b.apply o
+    let rest := runAll r.1 t
+    (rest.1, r.2 :: rest.2)
+
+def runStop (b : LBuf) : List Op → LBuf × Bool
+  | [] => (b, false)
+  | o :: t =>
+    let r := b.apply o
+    if r.2 then (r.1, true) else runStop r.1 t
+
+end LBuf
+
+/-- Projection of the buffer to sizes. -/
+def OutBuf.abs (b : OutBuf) : LBuf := ⟨b.limit, b.len⟩
+
+/-- `prepareMessage`, sizes only: the length of the framed message, or too large. -/
+def prepareLen (limit : Nat) (ops : List Op) : Res Nat :=
+  let r := (LBuf.new limit).runStop ops
+  if r.2 then .err .tooLarge else .ok r.1.len
+
+/-- Request side, sizes only: `some n` = a framed message of `n` bytes is handed to the
+wire; `none` = REQUEST_TOO_LARGE, nothing transmitted. -/
+def requestLen (t : Transport) (ops : List Op) : Option Nat :=
+  match prepareLen t.bufLimit ops with
+  | .ok n => if t.rejects n then none else some n
+  | _ => none
+
 /-! ### Server side: SendReply / trapError / sendError -/
 
 /-- What the bytes in the server's output buffer are. -/
@@ -188,16 +247,26 @@ inductive ReplyKind where
 
 def appResponseTooLarge : Nat := 100
 
+/-- `sendError`: five steps (`WriteResponseHeader`, `WriteMessageBegin`, the exception
+struct, `WriteMessageEnd`, `Flush`), each an encoder call that returns at its own first
+failing write; `sendError` ignores their errors and goes on. `true` = some write failed. -/
+def sendError (b : LBuf) : List (List Op) → LBuf × Bool
+  | [] => (b, false)
+  | seg :: t =>
+    let r := b.runStop seg
+    let rest := sendError r.1 t
+    (rest.1, r.2 || rest.2)
+
 /-- `SendReply(fctx, oprot, method, result)` on output buffer `b`: `rep` are the
 operations of the reply (response header, message begin, result struct, flush), `errp`
-those of the RESPONSE_TOO_LARGE error reply. The first failing write makes the encoder
-return the too-large error (the buffer has reset itself); `trapError` then runs
-`sendError`, which ignores the errors of its own writes. -/
-def sendReply (b : OutBuf) (rep errp : List Op) : OutBuf × ReplyKind :=
+the steps of the RESPONSE_TOO_LARGE error reply. The first failing write makes the
+encoder return the too-large error (the buffer has reset itself); `trapError` then runs
+`sendError`. -/
+def sendReply (b : LBuf) (rep : List Op) (errp : List (List Op)) : LBuf × ReplyKind :=
   let r := b.runStop rep
   if r.2 then
-    let e := r.1.runAll errp
-    (e.1, if e.2.any id then .garbage else .exception appResponseTooLarge)
+    let e := sendError r.1 errp
+    (e.1, if e.2 then .garbage else .exception appResponseTooLarge)
   else (r.1, .result)
 
 /-- `processReply`: a REPLY is read into the result; an EXCEPTION of application type
@@ -214,23 +283,30 @@ structure CallOut where
   res : Option CallErr
   deriving Repr, DecidableEq
 
-/-- One `Call` against a NATS-shaped server (`fNatsServer.processFrame`): request limit
-`q` (buffer and transport check), server output buffer `NewTMemoryOutputBuffer(r)`;
-no write data ⇒ nothing is published ⇒ the caller times out. -/
-def callLoop (q r : Nat) (req rep errp : List Op) : CallOut :=
-  match request ⟨q, fun n => decide (0 < q ∧ q < n)⟩ req with
-  | .rejected e => ⟨false, some e⟩
-  | .wire _ =>
-    let s := sendReply (OutBuf.new r) rep errp
+/-- One `Call` against a NATS-shaped server (`fNatsServer.processFrame`): request
+transport `t`, server output buffer `NewTMemoryOutputBuffer(r)`; no write data ⇒
+nothing is published ⇒ the caller times out. -/
+def callVia (t : Transport) (r : Nat) (req rep : List Op) (errp : List (List Op)) : CallOut :=
+  match requestLen t req with
+  | none => ⟨false, some .requestTooLarge⟩
+  | some _ =>
+    let s := sendReply (LBuf.new r) rep errp
     if s.1.hasWriteData then ⟨true, processReply s.2⟩ else ⟨true, some .timedOut⟩
+
+/-- The same with a parametrised request limit `q` (0 = unbounded), as the harness's
+in-process transport has it. -/
+def callLoop (q r : Nat) (req rep : List Op) (errp : List (List Op)) : CallOut := callVia (httpTransport q) r req rep errp
+
+/-- `fNatsTransport` + `fNatsServer`: both limits are 1 MiB. -/
+def callNats (req rep : List Op) (errp : List (List Op)) : CallOut := callVia natsTransport natsMaxMessageSize req rep errp
 
 /-- One `Call` over HTTP: `fHTTPTransport` with request limit `q` and response limit
 `r` (sent as `x-frugal-payload-limit`); the handler buffers the reply unbounded and
 answers 413 when the unframed reply is larger than `r`; the client maps 413 to 101. -/
 def callHttp (q r : Nat) (req rep : List Op) : CallOut :=
-  match request (httpTransport q) req with
-  | .rejected e => ⟨false, some e⟩
-  | .wire _ =>
+  match requestLen (httpTransport q) req with
+  | none => ⟨false, some .requestTooLarge⟩
+  | some _ =>
     if 0 < r ∧ r < opsSize rep then ⟨true, some .responseTooLarge⟩ else ⟨true, none⟩
 
 end FV
